@@ -464,6 +464,11 @@ impl<'a> World<'a> {
         if matches!(out.stop, Stop::Unsupported(_)) {
             return;
         }
+        if matches!(out.stop, Stop::Invalid(_)) {
+            // ill-typed Go is the code generator's fault (C02, not claimed), not the linker's
+            *self.st.probes.entry("linked_program_not_valid_go_skipped").or_insert(0) += 1;
+            return;
+        }
         *self.st.probes.entry("linked_program_executed").or_insert(0) += 1;
         if out.stdout != pred || out.stop != Stop::MainReturned {
             self.finding(
@@ -558,6 +563,28 @@ impl<'a> World<'a> {
                         }
                         let mut pr = Prng::new(*pick);
                         let exact = EXACT_POINTER.with(|c| c.get());
+                        // one time in three: rewrite a hash-valued field (interface hash,
+                        // dependency pin) to another hash that occurs somewhere in the store
+                        if !exact && pr.chance(1, 3) {
+                            let mut pool = Vec::new();
+                            for (k, v) in self.sb.snapshot() {
+                                if k.starts_with("store") {
+                                    if let Ok(d) = serde_json::from_slice::<Value>(&v) {
+                                        faults::hashes_in(&d, &mut pool);
+                                    }
+                                }
+                            }
+                            pool.sort();
+                            pool.dedup();
+                            if let Some((nd, ff)) = faults::replace_hash(&doc, &pool, &mut pr) {
+                                let text = serde_json::to_string_pretty(&nd).unwrap();
+                                self.sb.write(&path, text.as_bytes());
+                                self.note_corruption(&path, &b, text.as_bytes(), *core, format!("field:{}:{}", ff.pointer, ff.mutation));
+                                *self.st.fired.entry("storage:hash-field-rewritten".into()).or_insert(0) += 1;
+                                self.st.log.push(format!("field-corrupt {path} at {} ({})", ff.pointer, ff.mutation));
+                                return;
+                            }
+                        }
                         for _ in 0..8 {
                             let ptr = if exact { ptrs[(*pick as usize) % ptrs.len()].clone() } else { ptrs[pr.usize(ptrs.len())].clone() };
                             if let Some((nd, ff)) = faults::mutate_field(&doc, &ptr, &mut pr) {
